@@ -47,18 +47,34 @@ structure Deep (st : LoopSt) (oa od : Nat) : Prop where
   rootArr : st.p.ptype = 2 → st.p.depth = 1 → 1 ≤ (st.p.getLvl st.p.lvlIdx).ad
   md255 : st.p.maxDepth ≤ 255
 
-/-- `st'` is `st` after exactly the value `v` (whose encoding was at the cursor) has been consumed -/
-structure Passed (st st' : LoopSt) (len : Nat) (views : List EvView) : Prop where
+/-- `st'` is `st` after `len` more bytes have been consumed by iterations that did not touch the
+    levels below index `k`, logging callbacks with views `views` -/
+structure Moved (k : Nat) (st st' : LoopSt) (len : Nat) (views : List EvView) : Prop where
   shape : Shape st'.p
   err : st'.p.err = .none
   used : st'.p.used = st.p.used + len
   scan : st'.scan = st.scan
-  depth : st'.p.depth = st.p.depth
   frame : st.p.Frame st'.p
-  lower : ∀ i, i < st.p.lvlIdx → st'.p.getLvl i = st.p.getLvl i
-  zeros : ∀ i, st.p.depth ≤ i → st'.p.getLvl i = Level.zero
-  ad : (st'.p.getLvl st.p.lvlIdx).ad = (st.p.getLvl st.p.lvlIdx).ad
+  lower : ∀ i, i < k → st'.p.getLvl i = st.p.getLvl i
   ev : ∃ new : List Event, st'.ev = new ++ st.ev ∧ new.reverse.map (view st.p.buf) = views
+
+theorem Moved.trans {k : Nat} {a b c : LoopSt} {l1 l2 : Nat} {v1 v2 : List EvView}
+    (h1 : Moved k a b l1 v1) (h2 : Moved k b c l2 v2) : Moved k a c (l1 + l2) (v1 ++ v2) := by
+  refine ⟨h2.shape, h2.err, by rw [h2.used, h1.used]; omega, h2.scan.trans h1.scan, h1.frame.trans h2.frame, ?_, ?_⟩
+  · intro i hlt; rw [h2.lower i hlt, h1.lower i hlt]
+  · obtain ⟨n1, e1, w1⟩ := h1.ev
+    obtain ⟨n2, e2, w2⟩ := h2.ev
+    refine ⟨n2 ++ n1, by rw [e2, e1, List.append_assoc], ?_⟩
+    rw [List.reverse_append, List.map_append, w1, ← h1.frame.2.1, w2]
+
+theorem Moved.mono {k k' : Nat} {a b : LoopSt} {l : Nat} {v : List EvView} (h : Moved k a b l v) (hk : k' ≤ k) : Moved k' a b l v :=
+  ⟨h.shape, h.err, h.used, h.scan, h.frame, fun i hi => h.lower i (Nat.lt_of_lt_of_le hi hk), h.ev⟩
+
+/-- `st'` is `st` after exactly one value / element list / field list of the level `lvlIdx` has been consumed -/
+structure Passed (st st' : LoopSt) (len : Nat) (views : List EvView) : Prop where
+  moved : Moved st.p.lvlIdx st st' len views
+  depth : st'.p.depth = st.p.depth
+  zeros : ∀ i, st.p.depth ≤ i → st'.p.getLvl i = Level.zero
 
 theorem Parser.lvlIdx_of_pos {p : Parser} (h : 1 ≤ p.depth) : p.lvlIdx = p.depth - 1 := by
   unfold Parser.lvlIdx; split <;> omega
